@@ -37,7 +37,7 @@ func removeNodeByNodePath(d *Dir, nodePath []string, emptyOnly bool) (err error)
 		if lastDir, ok = lastNode.(*Dir); !ok {
 			return dirNode.removeNodeByName(lastNodeName)
 		}
-		if len(lastDir.nodes) != 0 {
+		if !lastDir.isEmpty() {
 			return goaterr.Errorf("Can not remove empty node")
 		}
 		verifhook.At("memfs.remove.betweenEmptyTestAndUnlink")
